@@ -113,7 +113,9 @@ CLAIMED = {
          "executes every doubled control code once and adds exactly the caption's characters row by row (written_caption_rereads); the text the writer model "
          "produces for ANY caption set of basic characters is header + per caption `<time code>\\t<these words>` (write_is_file: the pre-roll pass never touches a "
          "code word) and the reader model run on it - splitlines, lower-casing, time-code / word splitting, doubling memory, every control code, final flush - "
-         "holds at the end exactly the captions' characters in order (written_file_rereads: end to end on the models of writer and reader). Executable model of _text_to_code, the pre-roll pass and _format_timestamp compared byte-for-byte with the writer's output; the output is "
+         "holds at the end exactly the captions' characters in order (written_file_rereads), and stores - apart from the times - exactly ONE caption per input caption, in "
+         "order, whose nodes are the caption's rows separated by break nodes and whose position is the first row's (written_file_restored, stored_caption_is_rows: "
+         "end to end on the models of writer and reader, through store / formatItalics / toCaps as well). Executable model of _text_to_code, the pre-roll pass and _format_timestamp compared byte-for-byte with the writer's output; the output is "
          "checked structurally (header, hex words, parity, rows, 32 columns, breaks at spaces only, non-decreasing timecodes, visible within 3 frames) and "
          "re-read with the real SCCReader (same words, one caption per caption)."),
    ref="§3 C17", technique="Lean 4 proof (decide +kernel over generated tables, omega) + byte-level correspondence + structural oracle + re-read",
